@@ -3,6 +3,9 @@
 seeded/*/meta.json."""
 import glob, json, os, re
 NEEDS = {
+ "C13-exponent-leading-underscore": ("decimal literal whose exponent digit run starts with the `_` separator (`1e_5`, `1e+_5`): swallowed into the number instead of ending it", "C13/L1.digit_n3, L1.digit_n5", "round 5; caught unchanged (reference scanner `reflex.rs` states the leading-`_` rule independently)"),
+ "C08-linestart-cleanup-skipped-without-mls": ("`format_multiline_strings=false`: early return of the wrapper skips `remove_spaces_at_line_starts`, so every token first on a line keeps the space the spacing stage gave it", "C08/S2", "round 5; caught unchanged (S2 keeps the setting symbolic)"),
+ "C06-rbrack-operator-defers": ("`)`/`]` followed by an operator defers the gap to it; `(`/`[`/`^` defer back: same pair of sites as C06-rparen-no-opinion, written independently in round 5", "C06/N2", "round 5; caught unchanged"),
  "C01-mls-short-line": ("multi-line literal with a non-blank interior line shorter than the closing quotes' indentation", "C12/M1c.short_nonblank_line (shared into C01)", "shape added to the catalogue because of this seed"),
  "C01-unicode-whitespace-dropped": ("NBSP / U+2028 etc. at a token start treated as blank (`char::is_whitespace`)", "C13/W1.sNs, W1.IPs (shared into C01)", "shapes with U+00A0 and U+2028 added because of this seed"),
  "C02-safety-net-cr": ("CR-only input: line comment directly followed by a comment; safety net stands down for a formatted token whose original whitespace holds a CR", "C02/H2.ignored_ws1", "H2 got symbolic original whitespace on formatted tokens because of this seed"),
